@@ -1175,6 +1175,8 @@ package vm
 //@   ensures [gas]     leftOverGas <= gas
 //@   ensures [failgas] err != nil && err != ErrExecutionReverted && err != ErrDepth && err != ErrInsufficientBalance ==> leftOverGas == 0
 //@   ensures [revert]  err != nil ==> ghost(stver) == old(ghost(stver))
+//@   # a frame that fails hands no logs back: what it emitted was reverted with the rest of its effects (C12)
+//@   ensures [faillogs] err != nil ==> len(logs) == 0
 
 //@ spec abstract fn isSubChain() bool
 //@ func ext_isSub
@@ -1195,6 +1197,7 @@ package vm
 //@   requires [nonneg] big(value) >= 0
 //@   requires [wf]     forall a common.Address :: balOf(a) >= 0
 //@   ensures [reverted] result4 != nil && result4 != ErrCodeStoreOutOfGas && result4 != errSubChainNoCreate && result4 != ErrDepth && result4 != ErrInsufficientBalance && result4 != ErrContractAddressCollision ==> ghost(stver) == @select(ghost(snapver), old(ghost(snapnext)))
+//@   ensures [faillogs] result4 != nil && result4 != ErrCodeStoreOutOfGas ==> len(result3) == 0
 
 // The EIP-3074 sponsored call: the value is debited from the SPONSOR, so it is the sponsor's balance that must
 // cover it - the same conservation clauses as EVM.Call (the nonce bump before the snapshot is deliberate and
@@ -1208,6 +1211,8 @@ package vm
 //@   ensures [supply]  ghost(supply) <= old(ghost(supply))
 //@   ensures [wfkept]  forall a common.Address :: balOf(a) >= 0
 //@   ensures [gas]     leftOverGas <= gas
+//@   # a frame that fails hands no logs back: what it emitted was reverted with the rest of its effects (C12)
+//@   ensures [faillogs] err != nil ==> len(logs) == 0
 
 //@ func EVM.CallCode
 //@   property C12 C11
@@ -1216,6 +1221,8 @@ package vm
 //@   ensures [gas]     leftOverGas <= gas
 //@   ensures [failgas] err != nil && err != ErrExecutionReverted && err != ErrDepth && err != ErrInsufficientBalance ==> leftOverGas == 0
 //@   ensures [revert]  err != nil ==> ghost(stver) == old(ghost(stver))
+//@   # a frame that fails hands no logs back: what it emitted was reverted with the rest of its effects (C12)
+//@   ensures [faillogs] err != nil ==> len(logs) == 0
 
 //@ func EVM.DelegateCall
 //@   property C12 C11
@@ -1226,6 +1233,8 @@ package vm
 //@   ensures [gas]     leftOverGas <= gas
 //@   ensures [failgas] err != nil && err != ErrExecutionReverted && err != ErrDepth ==> leftOverGas == 0
 //@   ensures [revert]  err != nil ==> ghost(stver) == old(ghost(stver))
+//@   # a frame that fails hands no logs back: what it emitted was reverted with the rest of its effects (C12)
+//@   ensures [faillogs] err != nil ==> len(logs) == 0
 
 //@ func EVM.StaticCall
 //@   property C12 C11
@@ -1234,6 +1243,8 @@ package vm
 //@   ensures [gas]     leftOverGas <= gas
 //@   ensures [failgas] err != nil && err != ErrExecutionReverted && err != ErrDepth ==> leftOverGas == 0
 //@   ensures [revert]  err != nil ==> ghost(stver) == old(ghost(stver))
+//@   # a frame that fails hands no logs back: what it emitted was reverted with the rest of its effects (C12)
+//@   ensures [faillogs] err != nil ==> len(logs) == 0
 
 // ---------------------------------------------------------------------------------------------
 // Rangers opcodes AUTH / AUTHCALL helpers (C11: no opcode may crash the host). AUTH's jump-table entry has
